@@ -28,6 +28,7 @@ func checkC03(c *Ctx, r *Report) {
 	checkUPCEUses(c, r)
 	checkUPCEExpand(c, r)
 	checkUPCEParityLookup(c, r)
+	checkUPCDigitLoops(c, r)
 	checkUPCEANReaderEnforces(c, r)
 	checkUPCEANWritersEnforce(c, r)
 	checkCode128Checksum(c, r)
